@@ -226,3 +226,6 @@ def run(ctx):
     # its siblings: push/pop pairing on every exit
     from . import scope
     scope.rule_pairing(ctx, "R5.6")
+    # R5.7: the errors of `$ref` do not depend on its siblings: on the $ref-present path nothing else of the object is read (its id included)
+    from .c02 import rule_ref_opaque
+    rule_ref_opaque(ctx, "R5.7")
